@@ -59,6 +59,7 @@ var specialKeys = []string{
 	"", `q"t`, `b\s`, "t\tab", "nl\nx", "é", "日本", "😀", "s/l", "fields", "except", "and", "or", "not",
 	"*", "a*b", "a b", "a,b", "a|b", "b`t", "s'q", "\x00", "\x1f", "a.b", "0", "1", " ", "<&>", "#c",
 	"(", ":", "a:b", "\x7f", "Msg", " a", "in", `\`, `"`, `a`, "a\\\"b", "-a", "a-",
+	"größe", "ÿ", "\u0080x", "naïve-ö",
 }
 
 // names no document ever has
